@@ -1,26 +1,314 @@
 import FqModel.JQValue
 import Proofs.C08
+import Proofs.C08Methods
 /-!
   C08 — a decode value is indistinguishable from its JSON value in read-only jq.
 
-  Statements are about the model FqModel/JQValue.lean: `funcX Mode.real (Val.dv d)` is what gojq's
-  builtin X computes for the decode value `d` (it dispatches to the JQValue* methods of the wrapper
-  makeDecodeValueOut chose), `funcX Mode.real (Val.ofJV d.toValue)` is what the same builtin computes
-  for `d | tovalue`.
+  All statements are about the model FqModel/JQValue.lean, which is tied to /repo by the
+  correspondence run (harness c08): `funcX Mode.real (Val.dv d)` is what gojq's builtin X computes
+  for the decode value `d` — it dispatches to the JQValue* methods of the wrapper
+  makeDecodeValueOut chose (decodeValue over gojqx.Number/String/Boolean/Null/Array/Object/Lazy,
+  ArrayDecodeValue, StructDecodeValue) — and `funcX Mode.real (Val.ofJV d.toValue)` is what the same
+  builtin computes for `d | tovalue`.  `d` ranges over ALL decode trees (no bound on size or depth).
+
+  Full statement of the property, method level: for every builtin X of {length, keys, has, .[i],
+  .[a:b], .k, .[], type, tonumber, tostring, tojson, comparison} the two agree (`agree`: equal
+  values after `tovalue`, or both errors), except
+    (D1) a struct visits/lists its members in input order                       — keys_agree, each_agree (permutation)
+    (D2) `_`-prefixed extra keys are readable                                    — hypothesis NotExt / isExtKey k = false
+    (D3) a string-key lookup on a non-object yields null                         — key_agree_nonunderscore, third branch
+    (D4) raw bits keep bytes that are not valid UTF-8 under tovalue              — hypotheses RawOK / RawOKDeep
+  and except the recorded, undocumented deviations of the code (known_findings.json), each pinned
+  here by a witness: string-index-out-of-range, object-key-jqvalue, gojq-minint-length.
+  Hypotheses: NamesDistinct (decode.D.AddChild refuses duplicate field names), Utf8OK (a string that
+  went through `[]rune` is valid UTF-8: the general case needs the UTF-8 round-trip lemma
+  `decodeRunes (encodeRunes rs) = rs.map fix`, not proved — the theorems that need it say so).
+  Query level (stretch): only `indistinguishable_partial` is proved; the full
+  `∀ q v, DocOK q → eval q (wrap v) ≈ eval q (toValue v)` by induction on q is NOT proved — it is
+  checked by the correspondence run (the driver evaluates the specification mode of the model, which
+  is the plain semantics on `tovalue` + exactly D1-D4, against the real interpreter on every case).
 -/
 namespace Props.C08
 open FqModel FqModel.JQValue Proofs.C08
 
-/-- H1: the field names of a struct are distinct (decode.D.AddChild refuses a duplicate:
-    decode.go:800-802 `Fatalf("%q already exist in struct")`) -/
-def NamesDistinct : DV → Prop
-  | .struct fs => (fs.map (·.1)).Nodup
-  | _ => True
+/-! ### method level, for all decode values -/
 
-/-- H2: the value is not the integer -2^63, whose `length` overflows in gojq's plain arithmetic
-    (known finding gojq-minint-length) -/
-def NotMinInt : DV → Prop
-  | .scalar k sym _ => scalarJV k sym ≠ some (.int minInt)
-  | _ => True
+/-- `length` -/
+theorem length_agree (d : DV) (h1 : NamesDistinct d) (h2 : NotMinInt d) (h3 : Utf8OK d) :
+    funcLength Mode.real (.dv d) = funcLength Mode.real (Val.ofJV d.toValue) := by
+  cases d with
+  | struct fs =>
+    have hk : ((DV.toValueFields fs).map (·.1)).Nodup := by rw [toValueFields_keys]; exact h1
+    simp [funcLength, Mode.view, Mode.real, DV.mLength, DV.toValue, Val.ofJV, ofJVkvs_length,
+      length_objOfList _ hk, toValueFields_length]
+  | array es =>
+    simp [funcLength, Mode.view, Mode.real, DV.mLength, DV.toValue, Val.ofJV, ofJVs_length, toValueList_length]
+  | scalar k sym y =>
+    rw [toValue_scalar]
+    exact length_sv (scalarValue k sym) y h2 h3
+
+/-- the repaired defect §1.8 #5: the length of a decoded negative number is its absolute value
+    (before the fix `gojqx.Number.JQValueLength` returned the number itself: -5) -/
+theorem length_negative_fixed :
+    funcLength Mode.real (.dv (.scalar (.sint (-5)) none false)) = .ok (.int 5) ∧
+    funcLength Mode.real (Val.ofJV (DV.toValue (.scalar (.sint (-5)) none false))) = .ok (.int 5) := by
+  constructor <;> rfl
+
+/-- known finding gojq-minint-length: H2 of `length_agree` cannot be dropped — the decoded -2^63 has
+    length 2^63, its tovalue (a Go int) has "length" -2^63 in gojq's plain arithmetic -/
+theorem length_minint_witness :
+    funcLength Mode.real (.dv (.scalar (.sint minInt) none false)) = .ok (.int 9223372036854775808) ∧
+    funcLength Mode.real (Val.ofJV (DV.toValue (.scalar (.sint minInt) none false))) = .ok (.int minInt) := by
+  constructor <;> rfl
+
+/-- `type` -/
+theorem type_agree (d : DV) :
+    funcType Mode.real (.dv d) = funcType Mode.real (Val.ofJV d.toValue) := by
+  cases d with
+  | struct fs => simp [funcType, Mode.view, Mode.real, DV.mType, DV.toValue, Val.ofJV]
+  | array es => simp [funcType, Mode.view, Mode.real, DV.mType, DV.toValue, Val.ofJV]
+  | scalar k sym y => rw [toValue_scalar]; exact type_sv (scalarValue k sym) y
+
+/-- `tonumber` (RawOK: (D4) does not apply to this value) -/
+theorem tonumber_agree (d : DV) (h : RawOK d) :
+    funcToNumber Mode.real (.dv d) = funcToNumber Mode.real (Val.ofJV d.toValue) := by
+  cases d with
+  | struct fs => simp [funcToNumber, Mode.view, Mode.real, DV.mToNumber, DV.toValue, Val.ofJV]
+  | array es => simp [funcToNumber, Mode.view, Mode.real, DV.mToNumber, DV.toValue, Val.ofJV]
+  | scalar k sym y => rw [toValue_scalar]; exact tonumber_sv (scalarValue k sym) y h
+
+/-- `keys`: equal, except that a struct lists its fields in input order (D1) while its plain value
+    lists them sorted: the same keys as sets (a permutation) -/
+theorem keys_agree (d : DV) (h : NamesDistinct d) :
+    match d with
+    | .struct fs =>
+      funcKeys Mode.real (.dv d) = .ok (.arr ((fs.map (·.1)).map Val.str)) ∧
+      ∃ ks : List Bytes, funcKeys Mode.real (Val.ofJV d.toValue) = .ok (.arr (ks.map Val.str)) ∧ ks.Perm (fs.map (·.1))
+    | _ => funcKeys Mode.real (.dv d) = funcKeys Mode.real (Val.ofJV d.toValue) := by
+  cases d with
+  | struct fs =>
+    have hk : ((DV.toValueFields fs).map (·.1)).Nodup := by rw [toValueFields_keys]; exact h
+    refine ⟨by simp [funcKeys, Mode.view, Mode.real, DV.mKeys], (objOfList (DV.toValueFields fs)).map (·.1), ?_, ?_⟩
+    · simp [funcKeys, Mode.view, Mode.real, DV.toValue, Val.ofJV, map_str_keys_ofJVkvs]
+    · have := keys_objOfList_perm _ hk
+      rwa [toValueFields_keys] at this
+  | array es => simp [funcKeys, Mode.view, Mode.real, DV.mKeys, DV.toValue, Val.ofJV, ofJVs_length, toValueList_length]
+  | scalar k sym y => show (wrapSV (scalarValue k sym)).keys = _; rw [toValue_scalar]; exact keys_sv _ y
+
+/-- `has(k)` for every key that is not one of the documented `_` extra keys (D2) -/
+theorem has_agree (d : DV) (j : JV) (hk : NotExt j) :
+    agree (funcHas Mode.real (.dv d) (Val.ofJV j)) (funcHas Mode.real (Val.ofJV d.toValue) (Val.ofJV j)) := by
+  cases d with
+  | struct fs =>
+    cases j with
+    | str k =>
+      have := hk k rfl
+      simp only [funcHas, Mode.view, Mode.real, DV.mHas, DV.toValue, Val.ofJV, if_true, valueOrFallbackHas,
+        objHas_ofJVkvs, objHas_objOfList, any_key_toValueFields, fieldGet_isSome]
+      split <;> (try simp_all [agree, baseHas, Val.toValue, Val.shallowM]) <;> (try assumption)
+    | _ => simp [agree, funcHas, Mode.view, Mode.real, DV.mHas, DV.toValue, Val.ofJV, valueOrFallbackHas]
+  | array es =>
+    cases j with
+    | int i =>
+      simp only [funcHas, Mode.view, Mode.real, DV.mHas, DV.toValue, Val.ofJV, if_true, valueOrFallbackHas,
+        Val.shallowM, toGoInt, ofJVs_length, toValueList_length]
+      split <;> (try simp_all [agree, baseHas, Val.toValue, Val.shallowM]) <;> (try assumption)
+    | float f =>
+      simp only [funcHas, Mode.view, Mode.real, DV.mHas, DV.toValue, Val.ofJV, if_true, valueOrFallbackHas,
+        Val.shallowM, toGoInt, ofJVs_length, toValueList_length]
+      split <;> (try simp_all [agree, baseHas, Val.toValue, Val.shallowM]) <;> (try assumption)
+    | _ => simp [agree, funcHas, Mode.view, Mode.real, DV.mHas, DV.toValue, Val.ofJV, valueOrFallbackHas, toGoInt, Val.shallowM]
+  | scalar k sym y =>
+    show agree (valueOrFallbackHas (Val.ofJV j) ((wrapSV (scalarValue k sym)).has (Val.ofJV j))) _
+    rw [toValue_scalar]; exact has_sv _ y j hk
+
+/-- `.k` for a key that is not one of the `_` extra keys: the same member (or null) when the value
+    is an object or null; on every other value the decode value yields null (D3, documented) where
+    the plain value is an error -/
+theorem key_agree_nonunderscore (d : DV) (k : Bytes) (hk : isExtKey k = false) (hd : NamesDistinct d) :
+    match d.toValue with
+    | .obj _ => agree (indexKey Mode.real (.dv d) k) (indexKey Mode.real (Val.ofJV d.toValue) k)
+    | .null => agree (indexKey Mode.real (.dv d) k) (indexKey Mode.real (Val.ofJV d.toValue) k)
+    | _ => indexKey Mode.real (.dv d) k = .ok .null := by
+  cases d with
+  | struct fs =>
+    have hnd : ((DV.toValueFields fs).map (·.1)).Nodup := by rw [toValueFields_keys]; exact hd
+    simp only [DV.toValue, indexKey, Mode.real, DV.mKey, Val.ofJV, objGet_ofJVkvs,
+      objGet_objOfList_nodup k _ hnd, objGet_toValueFields]
+    cases h : fieldGet k fs with
+    | none => simp [agree, baseKey, hk, Val.toValue]
+    | some c => simp [agree, Val.toValue, toValue_ofJV]
+  | array es => simp [DV.toValue, indexKey, Mode.real, DV.mKey, baseKey, hk]
+  | scalar kk sym y =>
+    rw [toValue_scalar]
+    exact key_sv (scalarValue kk sym) y k hk
+
+/-- `.[i]`: equal results; for a string value only for an index inside the string -/
+theorem index_agree (d : DV) (i : Int) (hu : Utf8OK d) (hr : ∀ s, d.toValue = .str s → InRange s i) :
+    agree (indexInt Mode.real (.dv d) i) (indexInt Mode.real (Val.ofJV d.toValue) i) := by
+  cases d with
+  | struct fs => simp [indexInt, Mode.view, Mode.real, DV.mSliceLen, DV.mIndex, DV.toValue, Val.ofJV, agree]
+  | array es => exact index_array es i
+  | scalar k sym y =>
+    rw [toValue_scalar] at hr ⊢
+    exact index_sv (scalarValue k sym) y i hu hr
+
+/-- known finding string-index-out-of-range: `hr` of `index_agree` cannot be dropped — an index
+    outside a decoded string gives "" (gojqx.String.JQValueIndex, types.go:360), outside the plain
+    string null -/
+theorem index_string_oob_witness :
+    indexInt Mode.real (.dv (.scalar (.str [97, 98, 99]) none false)) 5 = .ok (.str []) ∧
+    indexInt Mode.real (Val.ofJV (DV.toValue (.scalar (.str [97, 98, 99]) none false))) 5 = .ok .null := by
+  constructor <;> rfl
+
+/-- `.[a:b]` on every value that is not a string.
+    MISSING for the full statement: string values (needs, per rune chunk c of the string,
+    `encodeRune (decode1 c).1 = c` for valid chunks — the UTF-8 round trip); strings are covered by
+    the correspondence run only. -/
+theorem slice_agree_partial (d : DV) (s e : Option Int) (hs : ¬ IsStr d.toValue) :
+    agree (funcSlice Mode.real (.dv d) s e) (funcSlice Mode.real (Val.ofJV d.toValue) s e) := by
+  cases d with
+  | struct fs => simp [funcSlice, Mode.view, Mode.real, DV.mSliceLen, DV.mSlice, DV.toValue, Val.ofJV, agree]
+  | array es => exact slice_array es s e
+  | scalar k sym y =>
+    rw [toValue_scalar] at hs ⊢
+    rw [funcSlice_scalar]
+    exact slice_sv (scalarValue k sym) y s e hs
+
+/-- `.[]`: the same (key, value) pairs — in the same order, except that a struct visits its fields
+    in input order (D1) and its plain value in sorted order (a permutation) -/
+theorem each_agree (d : DV) (h : NamesDistinct d) :
+    match opEach Mode.real (.dv d), opEach Mode.real (Val.ofJV d.toValue) with
+    | .ok ps, .ok qs =>
+      (ps.map tvPair).Perm (qs.map tvPair) ∧ ((∀ fs, d ≠ .struct fs) → ps.map tvPair = qs.map tvPair)
+    | .err _, .err _ => True
+    | _, _ => False := by
+  cases d with
+  | struct fs =>
+    have hk : ((DV.toValueFields fs).map (·.1)).Nodup := by rw [toValueFields_keys]; exact h
+    simp only [opEach, Mode.view, Mode.real, if_true, DV.mEach, DV.toValue, Val.ofJV]
+    refine ⟨?_, fun hne => absurd rfl (hne fs)⟩
+    rw [map_tvPair_fields, map_tvPair_ofJVkvs]
+    exact ((objOfList_perm _ hk).map _).symm
+  | array es =>
+    simp only [opEach, Mode.view, Mode.real, if_true, DV.mEach, DV.toValue, Val.ofJV, ofJVs_length, toValueList_length]
+    rw [map_tvPair_zip_dv, map_tvPair_zip_ofJVs]
+    exact ⟨List.Perm.refl _, fun _ => rfl⟩
+  | scalar k sym y =>
+    rw [toValue_scalar]
+    have := each_sv (scalarValue k sym) y
+    have hL : opEach Mode.real (.dv (.scalar k sym y)) = (wrapSV (scalarValue k sym)).each := rfl
+    rw [hL]
+    generalize (wrapSV (scalarValue k sym)).each = L at this ⊢
+    generalize opEach Mode.real (Val.ofJV (svToValue (scalarValue k sym) y)) = R at this ⊢
+    cases L <;> cases R <;> simp_all
+
+/-- what gojq's encoder and Compare see of a decode value (JQValueToGoJQ level by level) is its
+    `tovalue`, for trees of any depth (RawOKDeep: (D4) applies nowhere below) -/
+theorem deep_agree (d : DV) (h : RawOKDeep d) :
+    (Val.dv d).deepM Mode.real = (Val.ofJV d.toValue).deepM Mode.real := by
+  rw [deepM_ofJV]
+  simp [Val.deepM, Mode.real, goJQ_eq_toValue d h]
+
+/-- `tojson` (`ff`: the float text oracle, any) -/
+theorem tojson_agree (ff : UInt64 → Option Bytes) (d : DV) (h : RawOKDeep d) :
+    funcToJSON Mode.real ff (.dv d) = funcToJSON Mode.real ff (Val.ofJV d.toValue) := by
+  simp only [funcToJSON, deep_agree d h]
+
+/-- `==`, `<`, `sort`: comparison with any value, on either side -/
+theorem cmp_agree (d : DV) (x : Val) (h : RawOKDeep d) :
+    Val.cmpM Mode.real (.dv d) x = Val.cmpM Mode.real (Val.ofJV d.toValue) x ∧
+    Val.cmpM Mode.real x (.dv d) = Val.cmpM Mode.real x (Val.ofJV d.toValue) := by
+  simp only [Val.cmpM, deep_agree d h, and_self]
+
+/-- jq's `tostring` -/
+theorem tostring_agree (ff : UInt64 → Option Bytes) (d : DV) (h : RawOKDeep d) :
+    funcToString Mode.real ff (.dv d) = funcToString Mode.real ff (Val.ofJV d.toValue) := by
+  have hj := tojson_agree ff d h
+  rw [funcToString_eq, funcToString_eq, shallowM_ofJV]
+  cases d with
+  | struct fs => rw [shallowM_struct, hj]; simp only [DV.toValue, Val.ofJV]
+  | array es => rw [shallowM_array, hj]; simp only [DV.toValue, Val.ofJV]
+  | scalar k sym y =>
+    simp only [RawOKDeep] at h
+    have hg := goJQ_scalar k sym y h
+    simp only [DV.goJQ] at hg
+    rw [shallowM_scalar, hg, hj]
+    cases DV.toValue (.scalar k sym y) <;> simp only [Val.ofJV]
+
+/-- JQValueToString (used by gojq only for `{(k): v}` keys, execute.go:64) agrees for string values.
+    MISSING for the full statement: non-string values — FALSE of the code, see `object_key_witness`. -/
+theorem jqvalue_tostring_agree_partial (ff : UInt64 → Option Bytes) (d : DV) (s : Bytes)
+    (h : RawOK d) (hs : d.toValue = .str s) :
+    objectKey Mode.real ff (.dv d) = objectKey Mode.real ff (Val.ofJV d.toValue) := by
+  cases d with
+  | struct fs => simp [DV.toValue] at hs
+  | array es => simp [DV.toValue] at hs
+  | scalar k sym y =>
+    rw [toValue_scalar] at hs ⊢
+    simp only [RawOK] at h
+    simp only [objectKey, Mode.real, Bool.true_or, if_true, DV.mToString, wrapScalar]
+    generalize scalarValue k sym = sv at h hs
+    cases sv with
+    | raw bs =>
+      cases y with
+      | true => simp [svToValue, wrapSV, G.toString, Val.ofJV]
+      | false => simp only [svRawOK] at h; simp [svToValue, wrapSV, G.toString, Val.ofJV, h]
+    | j v => cases v <;> simp_all [svToValue, wrapSV, G.toString, G.toGoJQ, Val.ofJV, sanitize]
+
+/-- known finding object-key-jqvalue: a decoded number is accepted as an object key (its text), the
+    plain number is an error; a decoded JSON array as key makes the error formatting panic -/
+theorem object_key_witness :
+    objectKey Mode.real (fun _ => none) (.dv (.scalar (.uint 5) none false)) = .ok [53] ∧
+    objectKey Mode.real (fun _ => none) (Val.ofJV (DV.toValue (.scalar (.uint 5) none false))) = .err .objectKey ∧
+    objectKey Mode.real (fun _ => none) (.dv (.scalar (.any (.arr [.int 1])) none true))
+      = .panic "invalid type: gojqx.FuncTypeNameError" := by
+  refine ⟨rfl, rfl, rfl⟩
+
+/-! ### query level (stretch) -/
+
+/-- For the builtins whose results are plain values, followed by ANY query:
+    `type | q`, `length | q`, `tonumber | q`, `tojson | q`, `tostring | q` give the same outputs and
+    the same error on a decode value and on its tovalue.
+    NOT proved (stretch): the same for every query of the mini-jq by induction on the query
+    (`indistinguishable`), which needs a logical relation between evaluation values that contain
+    decode values and plain values; that statement is checked by the correspondence run. -/
+theorem indistinguishable_partial (ff : UInt64 → Option Bytes) (d : DV) (q : Q)
+    (h1 : NamesDistinct d) (h2 : NotMinInt d) (h3 : Utf8OK d) (h4 : RawOKDeep d) (h5 : RawOK d) :
+    (Q.pipe .type q).eval Mode.real ff (wrap d) = (Q.pipe .type q).eval Mode.real ff (Val.ofJV d.toValue) ∧
+    (Q.pipe .length q).eval Mode.real ff (wrap d) = (Q.pipe .length q).eval Mode.real ff (Val.ofJV d.toValue) ∧
+    (Q.pipe .tonumber q).eval Mode.real ff (wrap d) = (Q.pipe .tonumber q).eval Mode.real ff (Val.ofJV d.toValue) ∧
+    (Q.pipe .tojson q).eval Mode.real ff (wrap d) = (Q.pipe .tojson q).eval Mode.real ff (Val.ofJV d.toValue) ∧
+    (Q.pipe .tostring q).eval Mode.real ff (wrap d) = (Q.pipe .tostring q).eval Mode.real ff (Val.ofJV d.toValue) := by
+  refine ⟨?_, ?_, ?_, ?_, ?_⟩
+  · simp only [Q.eval, wrap, type_agree d]
+  · simp only [Q.eval, wrap, length_agree d h1 h2 h3]
+  · simp only [Q.eval, wrap, tonumber_agree d h5]
+  · simp only [Q.eval, wrap, tojson_agree ff d h4]
+  · simp only [Q.eval, wrap, tostring_agree ff d h4]
+
+/-! ### the hypotheses are satisfiable by non-trivial values -/
+
+/-- a struct with two fields, a nested array, a symbolic value and raw bits satisfies every hypothesis -/
+example :
+    let d : DV := .struct [([98], .scalar (.uint 7) (some (.str [120])) false),
+      ([97], .array [.scalar (.sint (-3)) none false, .scalar (.raw [65, 66]) none false])]
+    NamesDistinct d ∧ NotMinInt d ∧ Utf8OK d ∧ RawOK d ∧ RawOKDeep d := by
+  refine ⟨?_, trivial, trivial, trivial, ?_⟩
+  · simp only [NamesDistinct]; decide
+  · simp only [RawOKDeep, RawOKFields, RawOKList, svRawOK, scalarValue, actualSV, and_true, true_and]
+    decide
+
+example : NotExt (.str [97]) ∧ isExtKey [97] = false := by
+  refine ⟨?_, by decide⟩
+  intro k hk
+  cases hk
+  decide
+
+example : InRange [97, 98, 99] 1 ∧ InRange [97, 98, 99] (-3) := by
+  simp only [InRange]
+  decide
+
+example : ¬ IsStr (DV.toValue (.array [])) := by simp [DV.toValue, IsStr]
 
 end Props.C08
